@@ -240,7 +240,144 @@ fn reference_log(calls: &[(Call, usize, bool, bool)], val: &dyn Fn(&str, &[i32])
         .collect()
 }
 
+/// Programs for the last clause of the property (an unbound external makes the FIRST continue
+/// fail): one external `ex` that stays unbound while `other` is bound, called from 1-3 generated
+/// positions, none of them on the first line: the main flow before the first knot, a knot, stitch,
+/// tunnel, thread or function body, a taken or untaken inline conditional branch, a sequence
+/// element, a conditional block, a switch case, a tag, choice text, a choice condition, a choice
+/// body, a gather, a nested choice.
+pub fn unbound_source(tape: &[u16]) -> (String, Vec<usize>) {
+    let at = |i: usize| tape.get(i).copied().unwrap_or(0) as usize;
+    const NSITES: usize = 18;
+    let nsites = 1 + at(0) % 3;
+    let mut sites: Vec<usize> = (0..nsites).map(|k| at(1 + k) % NSITES).collect();
+    sites.sort();
+    sites.dedup();
+    let has = |k: usize| sites.contains(&k);
+    let call = |k: usize| format!("ex({})", 100 + k);
+    let mut s = String::from("EXTERNAL ex(a)\nEXTERNAL other(a)\nVAR v = 0\nVAR w = 0\nFirst line {other(1)}.\n");
+    if has(0) {
+        s += &format!("~ v = {}\n", call(0));
+    }
+    if has(1) {
+        s += &format!("Root text {{v > 5: {{{}}}|no}}.\n", call(1));
+    }
+    s += "-> k0\n=== k0 ===\nLine in k0.\n";
+    if has(2) {
+        s += &format!("~ w = {}\n", call(2));
+    }
+    if has(3) {
+        s += &format!("Taken {{v == 0: {{{}}}|no}}.\n", call(3));
+    }
+    if has(4) {
+        s += &format!("Untaken {{v > 5: {{{}}}|no}}.\n", call(4));
+    }
+    if has(5) {
+        s += &format!("Sequence {{&a|{{{}}}|c}}.\n", call(5));
+    }
+    if has(6) {
+        s += &format!("{{ v > 5:\n    ~ w = {}\n}}\n", call(6));
+    }
+    if has(7) {
+        s += &format!("{{ v:\n- 3:\n    Three {{{}}}.\n- else:\n    Other.\n}}\n", call(7));
+    }
+    if has(8) {
+        s += &format!("Tagged line. # t{{{}}}\n", call(8));
+    }
+    s += "-> tun ->\n<- thr\n";
+    s += &match (has(9), has(10)) {
+        (true, true) => format!("* {{{} > 0}} [pick {{{}}}]\n", call(10), call(9)),
+        (true, false) => format!("* [pick {{{}}}]\n", call(9)),
+        (false, true) => format!("* {{{} > 0}} [pick]\n", call(10)),
+        _ => "* [pick]\n".to_string(),
+    };
+    s += "    Chosen.\n";
+    if has(11) {
+        s += &format!("    ~ w = {}\n", call(11));
+    }
+    if has(12) {
+        s += &format!("    * * [deeper] Deep {{{}}}.\n    - - Inner gather.\n", call(12));
+    }
+    s += "* [other]\n    Other chosen.\n";
+    if has(13) {
+        s += &format!("- Gather {{{}}}.\n", call(13));
+    } else {
+        s += "- Gather.\n";
+    }
+    s += "-> k1.st\n=== k1 ===\nUnreached top.\n-> END\n= st\nStitch.\n";
+    if has(14) {
+        s += &format!("~ w = fn({})\n", 3);
+    }
+    if has(15) {
+        s += &format!("Stitch text {{{}}}.\n", call(15));
+    }
+    s += "-> END\n=== tun ===\nTunnel.\n";
+    if has(16) {
+        s += &format!("~ w = {}\n", call(16));
+    }
+    s += "->->\n=== thr ===\nThread.\n";
+    if has(17) {
+        s += &format!("+ [thread choice {{{}}}] -> END\n", call(17));
+    }
+    s += "-> DONE\n=== function fn(x) ===\n";
+    if has(14) {
+        s += &format!("~ return {} + x\n", call(14));
+    } else {
+        s += "~ return x\n";
+    }
+    (s, sites)
+}
+
+pub fn exec_unbound(case: &J, acc: &mut Acc) -> Result<(), Fail> {
+    inflight(case);
+    let src = case["source"].as_str().unwrap_or("");
+    let allow = case["allow_fallbacks"].as_bool().unwrap_or(false);
+    let (json_text, meta) = compile_src(src).map_err(|e| Fail::harness(format!("C12 unbound-leg program does not compile: {e}\n{src}")))?;
+    acc.eval();
+    let cfg = HostCfg { handler: false, bind_externals: Some(true), allow_fallbacks: allow, ..HostCfg::default() };
+    let r = guard(|| {
+        let mut h = Host::new(&json_text, meta.clone(), &cfg).map_err(|e| e.to_string())?;
+        h.apply(&HostOp::Unbind("ex".into()));
+        h.trace.clear();
+        let can = h.story.can_continue();
+        let r = h.story.cont();
+        let log: Vec<Obs> = h.log.borrow().clone();
+        Ok::<_, String>((can, r.map_err(|e| e.to_string()), log))
+    });
+    let (can, r, log) = match r {
+        Err(p) => return Err(panic_fail(&p, "unbound external", case)),
+        Ok(Err(e)) => return Err(Fail::harness(format!("Story::new failed: {e}"))),
+        Ok(Ok(x)) => x,
+    };
+    for k in case["sites"].as_array().cloned().unwrap_or_default() {
+        acc.class(&format!("unbound_site:{}", k));
+    }
+    acc.nontrivial(fnv(&case.to_string()));
+    if !can {
+        return Err(Fail::violation("unbound-not-refused", "a fresh story cannot continue", case.clone()));
+    }
+    match r {
+        Ok(text) => Err(Fail::violation(
+            "unbound-not-refused",
+            format!("external ex is unbound and has no Ink fallback (fallbacks allowed: {allow}) but the first continue delivered {text:?}"),
+            case.clone(),
+        )),
+        Err(e) => {
+            if !e.contains("ex") {
+                return Err(Fail::violation("unbound-not-refused", format!("the first continue failed, but not about the unbound external: {e}"), case.clone()));
+            }
+            if log.iter().any(|o| matches!(o, Obs::Ext { .. })) {
+                return Err(Fail::violation("unbound-not-refused", format!("an external was called before the refusal: {log:?}"), case.clone()));
+            }
+            Ok(())
+        }
+    }
+}
+
 pub fn exec(case: &J, acc: &mut Acc) -> Result<(), Fail> {
+    if case["leg"].as_str() == Some("unbound") {
+        return exec_unbound(case, acc);
+    }
     inflight(case);
     let tape: Vec<u16> = case["tape"]
         .as_array()
@@ -453,6 +590,22 @@ pub fn run(env: &Env) -> i32 {
                 exec(&case, acc)?;
             }
             Ok(())
+        },
+    );
+    rep.absorb(r);
+    // unbound leg
+    let n2 = env.cases(6000, 60000);
+    let r = run_cases(
+        env,
+        2,
+        n2,
+        || proptest::collection::vec(proptest::num::u16::ANY, 0..6),
+        |tape: &Vec<u16>, acc: &mut Acc| {
+            let (src, sites) = unbound_source(tape);
+            let allow = tape.get(4).map(|v| v & 1 == 1).unwrap_or(false);
+            let case = json!({"leg": "unbound", "source": src, "sites": sites, "allow_fallbacks": allow});
+            acc.sample(|| case.clone());
+            exec_unbound(&case, acc)
         },
     );
     rep.absorb(r);
